@@ -118,6 +118,7 @@ func c12ByLanguage(p *Program, r *Report) bool {
 	r.Explain = "Decided from the language of the result: every returned string is the innocuous constant or a sequence of candidates URL [ws DESC] separated by ws+ , ws*, where URL has no ASCII whitespace, neither starts nor ends with a comma and is accepted by the URL guard, and DESC has no whitespace or comma and was accepted by the descriptor check."
 	r.Min("C12.L1", 1)
 	r.Min("C12.L2", 1)
+	r.Min("C12.L3", 1)
 	r.Min("C12.R5", 2)
 	const cn = "safehtml.URLSetSanitized"
 	fn := p.Func("", "URLSetSanitized")
@@ -139,6 +140,7 @@ func c12ByLanguage(p *Program, r *Report) bool {
 		}
 		return Term{}, false
 	}
+	oe.Fidelity = &cutFidelity{Byte: ',', Enc: []string{"%2c", "%2C"}}
 	fr := oe.topFrame(fn)
 	oe.seedTokens(fr)
 	var alts []*lx
@@ -239,6 +241,22 @@ func c12ByLanguage(p *Program, r *Report) bool {
 		return false
 	} else {
 		r.Viol("C12.L1", cn+"#result-language", pos, "a result is possible that is not a sequence of safe image candidates: "+trunc(x.String(), 300), w)
+	}
+	// L3: the helper that cuts commas off the URL token writes them back encoded, and nothing else
+	{
+		cf := oe.Fidelity
+		c := cn + "#comma-encoding"
+		switch {
+		case len(cf.Bad) > 0:
+			sort.Strings(cf.Bad)
+			r.Viol("C12.L3", c, pos, "the URL that is written is not the URL of the candidate with at most a leading and a trailing comma percent-encoded: "+cf.Bad[0], "")
+		case cf.Paths > 0:
+			r.OK("C12.L3", c, pos, fmt.Sprintf("on each of the %d paths that write the URL token, a byte is cut off an end only where it was tested to be ',' and \"%%2c\" is written in its place; nothing else is added", cf.Paths))
+		case len(cf.Skip) > 0:
+			r.Undec("C12.L3", c, pos, cf.Skip[0])
+		default:
+			r.OK("C12.L3", c, pos, "the URL token is written whole (no helper cuts bytes off it)")
+		}
 	}
 	// L2: tokens that are written without the URL guard's language are descriptors: each is written
 	// only where the descriptor check accepted it
